@@ -311,6 +311,14 @@ func runReader(fn string, text []byte, extra ...string) {
 // keys and values) — after first having read `pre` to the end when pre != nil (a REUSED reader:
 // stale configuration slots, unit metadata carried over).
 func runReaderInit(fn string, text []byte, init []string, pre []byte, extra ...string) {
+	runReaderReuse(fn, text, init, pre, -1, extra...)
+}
+
+// runReaderReuse: like runReaderInit, but the reader is Reset after only preK records of `pre`
+// have been taken (preK < 0: pre is drained) — possibly between the records of one multi-record
+// line, or before any Scan. After the Reset the reader must behave like a fresh one: Result()
+// is the "Scan has not been called" placeholder and the first Scan reads the NEW input.
+func runReaderReuse(fn string, text []byte, init []string, pre []byte, preK int, extra ...string) {
 	id := nextID
 	nextID++
 	if !shardMine(id) {
@@ -331,16 +339,25 @@ func runReaderInit(fn string, text []byte, init []string, pre []byte, extra ...s
 		tags["reused"] = true
 		hasPre = 1
 	}
-	caseLine := fmt.Sprintf("case %d kind=r fn=%s text=%s init=%s haspre=%d pre=%s %s tag=%s", id, hx.HexS(fn), hx.Hex(text),
-		hx.HexListS(init), hasPre, hx.Hex(pre), t, tagStr(tags))
+	if pre != nil && preK >= 0 {
+		tags["midreset"] = true
+	}
+	caseLine := fmt.Sprintf("case %d kind=r fn=%s text=%s init=%s haspre=%d prek=%d pre=%s %s tag=%s", id, hx.HexS(fn), hx.Hex(text),
+		hx.HexListS(init), hasPre, preK, hx.Hex(pre), t, tagStr(tags))
 	guarded(id, caseLine, func(out *strings.Builder) {
 		var r *benchfmt.Reader
+		pre0 := "noresult"
 		switch {
 		case pre != nil:
 			r = benchfmt.NewReader(bytes.NewReader(pre), "pre")
-			for r.Scan() {
+			for k := 0; (preK < 0 || k < preK) && r.Scan(); k++ {
 			}
 			r.Reset(bytes.NewReader(text), fn, init...)
+			// before the first Scan on the new input there is no record
+			if se, ok := r.Result().(*benchfmt.SyntaxError); !ok || se.Msg != "Reader.Scan has not been called" {
+				o, _ := serRec(r.Result())
+				pre0 = "[" + strings.ReplaceAll(o, " ", "_") + "]"
+			}
 		case len(init) > 0:
 			r = new(benchfmt.Reader)
 			r.Reset(bytes.NewReader(text), fn, init...)
@@ -358,7 +375,7 @@ func runReaderInit(fn string, text []byte, init []string, pre []byte, extra ...s
 		end := fmt.Sprintf("end n=%d failed=%s units=%s", n, ioerr, serUnits(r.Units()))
 		fmt.Fprintf(out, "obs %d %s\n", id, end)
 		fmt.Fprintf(out, "obs %d closed same\n", id)
-		fmt.Fprintf(out, "sobs %d %s clone=%s again=%d\n", id, end, cl, scanAgain(r))
+		fmt.Fprintf(out, "sobs %d %s clone=%s again=%d pre0=%s\n", id, end, cl, scanAgain(r), pre0)
 	})
 }
 
@@ -577,5 +594,7 @@ func replay(l string) {
 			pre = []byte{}
 		}
 	}
-	runReaderInit(string(hx.UnHex(get("fn"))), hx.UnHex(get("text")), init, pre)
+	preK := -1
+	fmt.Sscan(get("prek"), &preK)
+	runReaderReuse(string(hx.UnHex(get("fn"))), hx.UnHex(get("text")), init, pre, preK)
 }
